@@ -299,6 +299,11 @@ pub fn replay_pool(
     let mut seen = HashSet::new();
     let mut out = std::io::BufWriter::new(std::fs::File::create(output).expect("create out"));
     let results = results.lock().unwrap();
+    if let Some(missing) = results.iter().position(|r| r.is_none()) {
+        // a worker thread died without answering (e.g. the worker binary could not be spawned)
+        eprintln!("replay pool: no result for case {missing}; treating the run as a tool error");
+        std::process::exit(2);
+    }
     for (i, r) in results.iter().enumerate() {
         let o = r.clone().unwrap_or_default();
         let case: Value = serde_json::from_str(&lines[i]).unwrap_or(Value::Null);
